@@ -44,6 +44,7 @@ type FuncContract struct {
 	Assumed  bool // from stdlib.spec
 	MayPanic bool
 	Lemma    bool
+	Shallow  bool     // do not inline callees when verifying this function (large functions)
 	Uses     []string // quantified axioms this function's proof may use
 	SpecNames []string // spec-level aliases for the results of a pure function (one per result)
 	File     string
@@ -185,7 +186,7 @@ func (db *SpecDB) loadContractFile(path, pkgPath string) error {
 		isKeyword := map[string]bool{"func": true, "iface": true, "prop": true, "requires": true, "ensures": true, "at": true, "loop": true,
 			"modifies": true, "nomod": true, "pure": true, "fresh": true, "trusted": true, "safety": true, "noinline": true, "nilable": true,
 			"abstract": true, "define": true, "axiom": true, "stable": true, "nonnil": true, "ghost": true, "params": true, "maypanic": true,
-			"guarded": true, "atomic-only": true, "scan": true, "lemma": true, "end": true, "specname": true, "uses": true, "package-default": true}[word]
+			"guarded": true, "atomic-only": true, "scan": true, "lemma": true, "end": true, "specname": true, "uses": true, "package-default": true, "shallow": true}[word]
 		if !isKeyword {
 			// continuation of the previous clause / define
 			if pendingSrc != nil {
@@ -349,6 +350,10 @@ func (db *SpecDB) loadContractFile(path, pkgPath string) error {
 		case "maypanic":
 			if cur != nil {
 				cur.MayPanic = true
+			}
+		case "shallow":
+			if cur != nil {
+				cur.Shallow = true
 			}
 		case "noinline":
 			if cur != nil {
